@@ -314,6 +314,8 @@ def _snapshot_hdd(path, c):
 def _snapshot_ram(res, c):
     recs = {}
     for key, w in res.results.items():
+        if not isinstance(key, str):   # a different key scheme: shown as it is, never matches a model key
+            key = "+".join(str(x) for x in key) if isinstance(key, tuple) else repr(key).replace(" ", "")
         recs[key] = ("%s@%s@%s" % (_ints(w.index), _vals(w.y_true, c), _vals(w.y_pred, c)), w)
     return recs, {}
 
@@ -822,7 +824,7 @@ def _exhaustive(rng, tier):
                 for k in range(1, total + 2):       # total+1: no call fails
                     for fresh in (True, False):
                         n += 1
-                        if tier == "quick" and (n + rng.randrange(1 << 30)) % 4 != 0:
+                        if tier == "quick" and (n + rng.randrange(1 << 30)) % 3 != 0:
                             continue
                         runs = [_opts(saveF=saveF, pot=pot, fail=k, fresh=True),
                                 _opts(saveF=saveF, pot=pot, fresh=fresh),
@@ -920,7 +922,7 @@ def _malformed(rng):
 def gen_cases(tier, rng):
     cases = []
     cases += _exhaustive(rng, tier)
-    for _ in range(120 if tier == "quick" else 2500):
+    for _ in range(260 if tier == "quick" else 3200):
         cases.append(_random_case(rng))
     cases += _malformed(rng)
     return cases
